@@ -57,6 +57,7 @@ DOMAINS = {
 }
 # an unknown (future) field carries a value of the kind the class stores
 FUTURE_VALUE = {'Capacities': 5, 'Flags': True, 'Location': 1.5}
+FUTURE_KINDS = ('x', 5, -1, 1.5, True, None, ['a', 1], {'a': {'b': 1}})
 ALWAYS_ENCODES = {'Flags'}       # no unset sentinel: always encodes its booleans
 
 
@@ -167,11 +168,15 @@ def eval_jsonfield(case):
     # something the class already has (a method, a class-level table)
     if d is not None:
         items = list(d.items())
-        for uk in ('zz_future_field', 'to_json', 'update', 'VALIDATORS'):
-            stop = False
+        default = FUTURE_VALUE.get(cname, 'x')
+        probes = [(uk, default, '' if uk == 'zz_future_field' else f'/{uk}')
+                  for uk in ('zz_future_field', 'to_json', 'update', 'VALIDATORS')]
+        # a future field need not have a value of a kind today's fields have
+        probes += [('zz_future_field', fv, f'/value-{type(fv).__name__}') for fv in FUTURE_KINDS
+                   if type(fv) is not type(default)]
+        for uk, fv, tag in probes:
             for pos in range(len(items) + 1):
-                d2 = dict(items[:pos] + [(uk, FUTURE_VALUE.get(cname, 'x'))] + items[pos:])
-                tag = '' if uk == 'zz_future_field' else f'/{uk}'
+                d2 = dict(items[:pos] + [(uk, fv)] + items[pos:])
                 try:
                     z = cls.from_json(json.dumps(d2))
                     fz = fields(z) if z is not None else {}
